@@ -4,6 +4,7 @@ import Frp.Engines.Udp
 import Frp.Engines.Conf
 import Frp.Engines.Nat
 import Frp.Engines.Wait
+import Frp.Engines.Plugin
 /-! Registry of driver engines (one line per engine). -/
 namespace Frp.Engines
 open Frp.Proto
@@ -14,5 +15,6 @@ def all : List (String × Engine) :=
   , ("conf", conf)
   , ("nat", nat)
   , ("wait", wait)
+  , ("plugin", plugin)
   ]
 end Frp.Engines
